@@ -31,7 +31,10 @@ namespace sim {
 		// simplified network model where the two paths of a connection are set up
 		// independently, and we can set up the nat hop only on the outgoing path
 		p.from.address(m_external_addr);
-		if (p.channel) {
+		// only the connection attempt itself (travelling from the connector)
+		// changes how the connector is seen; a SYN+ACK passing the NAT of the
+		// accepting side must not
+		if (p.channel && p.type == aux::packet::type_t::syn) {
 			p.channel->visible_ep[0].address(m_external_addr);
 		}
 		forward_packet(std::move(p));
